@@ -997,6 +997,26 @@ def crafted_mime_pairs():
             out.append((nb([code([disp({'text/plain': other_a, 'application/json': {'k': 1}})])]), nb([code([disp({'text/plain': other_b, 'application/json': payload})])])))
     return out
 
+def crafted_retype_pairs():
+    """deterministic notebook pairs whose ONLY difference is the JSON type of number/bool leaves that are equal under
+    Python == (1 / 1.0 / True, 0 / 0.0 / -0.0 / False), sitting inside lists of equal length at every place a notebook
+    holds free-form lists: notebook metadata, cell metadata, output metadata, JSON mime payloads (flat lists, lists
+    of lists, lists of objects, a list holding one list).  Python's == on the whole list calls these lists equal."""
+    def nb(cells, meta=None): return {'cells': cells, 'metadata': meta or {}, 'nbformat': 4, 'nbformat_minor': 4}
+    def code(outs, meta=None): return {'cell_type': 'code', 'execution_count': 1, 'metadata': meta or {}, 'outputs': outs, 'source': 'x'}
+    def disp(data, meta=None): return {'output_type': 'display_data', 'data': data, 'metadata': meta or {}}
+    out = []
+    twins = [([1, 2, 3], [1.0, 2, 3]), ([1, 0], [True, False]), ([0.0, 'a'], [-0.0, 'a']), ([True], [1]),
+             ([[1, 2], [3]], [[1, 2.0], [3]]), ([{'v': 1}, {'v': 2}], [{'v': 1}, {'v': 2.0}]), ([[[0]]], [[[False]]]),
+             (['a', 1, None, 2.0], ['a', 1, None, 2])]
+    for va, vb in twins:
+        out.append((nb([code([])], {'lists': va}), nb([code([])], {'lists': vb})))
+        out.append((nb([code([], {'lists': va})]), nb([code([], {'lists': vb})])))
+        out.append((nb([code([disp({'text/plain': 't'}, {'lists': va})])]), nb([code([disp({'text/plain': 't'}, {'lists': vb})])])))
+        out.append((nb([code([disp({'text/plain': 't', 'application/json': va})])]), nb([code([disp({'text/plain': 't', 'application/json': vb})])])))
+        out.append((nb([code([disp({'text/plain': 't', 'application/json': {'k': va}})])]), nb([code([disp({'text/plain': 't', 'application/json': {'k': vb}})])])))
+    return out
+
 # ---------------------------------------------------------------- validation (only for processes allowed to import nbformat)
 _VALIDATORS = {}
 def validate(nb):
